@@ -59,7 +59,7 @@ func (b *BM25Similarity) IdfExplainTerm(collectionStats segment.CollectionStats,
 		docCount = collectionStats.DocumentCount()
 	}
 	idf := b.Idf(docFreq, docCount)
-	return search.NewExplanation(idf, "idf, computed as log(1 + (N - n + 0.5) / (n + 0.5)) from:",
+	return search.NewExplanation(idf, "idf, computed as log(1 + (N - n) + 0.5 / (n + 0.5)) from:",
 		search.NewExplanation(float64(docFreq), "n, number of documents containing term"),
 		search.NewExplanation(float64(docCount), "N, total number of documents with field"))
 }
